@@ -422,7 +422,8 @@ def c12(c):
 
 C18_THEOREMS = ["RadauCtl.newtonLoop_ode", "RadauCtl.pass_ode", "BdfCtl.newtonLoop_ode", "Ctl.Meter.counted_bump", "Ctl.Meter.counted_cb", "Ctl.Meter.counted_refresh", "Ctl.afterCb_counted",
                 "Ctl.dopri5Kernel_ok", "Ctl.dop853Kernel_ok", "Ctl.hinit_calls", "Ctl.rk23_stages_calls", "Ctl.rk4_stages_calls",
-                "Ctl.rk4_update_calls", "Ctl.hSolve_counted", "Ctl.C18_dopri5", "Ctl.C18_dop853", "Ctl.rk23Solve_inv", "Ctl.rk4Solve_inv"]
+                "Ctl.rk4_update_calls", "Ctl.hSolve_counted", "Ctl.C18_dopri5", "Ctl.C18_dop853", "Ctl.rk23Solve_inv", "Ctl.rk4Solve_inv",
+                "Ctl.hSolve_naccpt"]
 
 
 def c18(c):
